@@ -141,6 +141,15 @@ func (x vfHandle) scalar() uint64 {
 		return x.h.count.Load()
 	}
 }
+
+// scalarStr prints the scalar; a gauge value is signed
+func (x vfHandle) scalarStr() string {
+	if x.g != nil {
+		return strconv.FormatInt(int64(x.g.Value()), 10)
+	}
+	return strconv.FormatUint(x.scalar(), 10)
+}
+
 func (x vfHandle) show() string {
 	switch {
 	case x.c != nil:
@@ -674,7 +683,7 @@ func vfConcRound(pool *vfPool, kind string, cap, nl int, noise bool, setup []vfO
 		if i > 0 {
 			sb.WriteString("+")
 		}
-		sb.WriteString(e.tup + ":" + strconv.FormatUint(e.h.scalar(), 10))
+		sb.WriteString(e.tup + ":" + e.h.scalarStr())
 	}
 	ic := m.r.SnapshotInternal()
 	show := func(rs []vfRes, progOps []vfOp) string {
@@ -699,7 +708,7 @@ func vfConcRound(pool *vfPool, kind string, cap, nl int, noise bool, setup []vfO
 			if progOps != nil && vfTupleTok(r.h.labelValues()) != vfTupleTok(progOps[i].tuple) {
 				cls = "X"
 			}
-			parts[i] = cls + strconv.FormatUint(r.h.scalar(), 10)
+			parts[i] = cls + r.h.scalarStr()
 		}
 		if len(parts) == 0 {
 			return "-"
@@ -998,7 +1007,7 @@ func vfRegRound(p *vfRegPool, noise, pre bool) string {
 			})
 			sort.Slice(es, func(i, j int) bool { return es[i].tup < es[j].tup })
 			for _, e := range es {
-				live = append(live, e.tup+":"+strconv.FormatUint(e.h.scalar(), 10))
+				live = append(live, e.tup+":"+e.h.scalarStr())
 			}
 			mi := regObj.(metric)
 			c, d, u, st = mi.seriesCountLoad(), mi.cardinalityDropsLoad(), mi.unknownSeriesEmitsLoad(), mi.staleHandleEmitsLoad()
@@ -1037,7 +1046,7 @@ func vfRegRound(p *vfRegPool, noise, pre bool) string {
 					if vfTupleTok(rr.h.labelValues()) != vfTupleTok(t.prog[j].tuple) {
 						cls = "X"
 					}
-					fields = append(fields, cls+strconv.FormatUint(rr.h.scalar(), 10))
+					fields = append(fields, cls+rr.h.scalarStr())
 				}
 			}
 			tparts = append(tparts, "T"+strconv.Itoa(i)+"="+strings.Join(fields, "."))
